@@ -305,6 +305,12 @@ func suiteDocument(r *Rng, n int, thorough bool, o *Out) {
 			o.stat("data.errors-with-data")
 		}
 		// included through Include (fresh, repeated, and primary-data resources)
+		if r.chance(1, 4) {
+			// as UnmarshalDocument leaves it: a non-nil, empty index (the field plays no
+			// part in Include or MarshalDocument)
+			doc.Resources = map[string]map[string]struct{}{}
+			o.stat("doc.resources-index-empty")
+		}
 		prim := docResources(doc)
 		var pool []jsonapi.Resource
 		for i := r.IntN(5); i > 0; i-- {
